@@ -21,7 +21,7 @@ CONSTANTS
   OptFlags,    \* flags switched by the "opts" family
   PushLens,    \* lengths of Push batches
   DstCaps,     \* capacities of the Transfer destination
-  DstOps,      \* calls issued on the second handle: subset of {"push","pop","ronly","nnest"}
+  DstOps,      \* calls issued on the second handle: subset of {"push","pop","ronly","nnest","policy"}
   IdxMode,     \* "existing": Remove/Replace/Swap only address existing positions (C01);
                \* "all": every index incl. out-of-range and MinInt/MaxInt stand-ins (C08)
   OUT          \* file the transition table is written to ("" = do not emit)
@@ -133,7 +133,9 @@ DstCalls == IF "transfer" \in Fams
             THEN (IF "push" \in DstOps THEN {[op |-> "Push", xs |-> xs] : xs \in Batches} ELSE {}) \cup
                  (IF "pop" \in DstOps THEN {[op |-> "Pop"]} ELSE {}) \cup
                  (IF "ronly" \in DstOps THEN {[op |-> "SetOpt", f |-> "ronly", m |-> "toggle"]} ELSE {}) \cup
-                 (IF "nnest" \in DstOps THEN {[op |-> "SetOpt", f |-> "nnest", m |-> "toggle"]} ELSE {})
+                 (IF "nnest" \in DstOps THEN {[op |-> "SetOpt", f |-> "nnest", m |-> "toggle"]} ELSE {}) \cup
+                 (IF "policy" \in DstOps THEN {[op |-> "SetPushPolicy", on |-> TRUE, acc |-> SetToSeq(Vals)],       \* approves everything
+                                                [op |-> "SetPushPolicy", on |-> FALSE, acc |-> <<>>]} ELSE {})
             ELSE {}
 XferCalls == IF "transfer" \in Fams
              THEN {[op |-> "Transfer", form |-> f, dir |-> d] : f \in Forms, d \in {"fwd", "back"}}
